@@ -3,9 +3,10 @@
 (* Unbounded-in-time safety of the registry's locking discipline, as an    *)
 (* inductive invariant discharged by Apalache (Init => IndInv at length 0, *)
 (* IndInv /\ Next => IndInv' at length 1).  This is the lock / body /      *)
-(* unlock skeleton of Registry.tla with the registry content abstracted to *)
-(* a version counter: what is proved is mutual exclusion and that the      *)
-(* content changes only in a Body step of the lock holder.                 *)
+(* unlock skeleton of Registry.tla (readers/writer form) with the registry *)
+(* content abstracted to a version counter: what is established is that a  *)
+(* writer excludes everybody and that the content changes only in a Body   *)
+(* step of the writer.                                                     *)
 (***************************************************************************)
 EXTENDS Integers
 
@@ -15,40 +16,49 @@ CONSTANT
 
 VARIABLES
   \* @type: Int;
-  lock,
+  writer,
+  \* @type: Set(Int);
+  readers,
   \* @type: Int -> Str;
   pc,
+  \* @type: Int -> Bool;
+  wr,
   \* @type: Int;
-  version,
-  \* @type: Int;
-  lastWriter
+  version
 
 CInit == Procs = {1, 2, 3, 4}
 
-Init == /\ lock = 0 /\ pc = [p \in Procs |-> "idle"] /\ version = 0 /\ lastWriter = 0
+Init == /\ writer = 0 /\ readers = {} /\ pc = [p \in Procs |-> "idle"] /\ wr = [p \in Procs |-> FALSE] /\ version = 0
 
-Lock(p) == /\ pc[p] = "idle" /\ lock = 0
-           /\ lock' = p /\ pc' = [pc EXCEPT ![p] = "locked"] /\ UNCHANGED <<version, lastWriter>>
-\* a body step may write (register) or only read (named / list)
-Body(p) == /\ pc[p] = "locked" /\ lock = p
+LockW(p) == /\ pc[p] = "idle" /\ writer = 0 /\ readers = {}
+            /\ writer' = p /\ wr' = [wr EXCEPT ![p] = TRUE] /\ pc' = [pc EXCEPT ![p] = "locked"]
+            /\ UNCHANGED <<readers, version>>
+LockR(p) == /\ pc[p] = "idle" /\ writer = 0
+            /\ readers' = readers \cup {p} /\ wr' = [wr EXCEPT ![p] = FALSE] /\ pc' = [pc EXCEPT ![p] = "locked"]
+            /\ UNCHANGED <<writer, version>>
+Body(p) == /\ pc[p] = "locked"
            /\ pc' = [pc EXCEPT ![p] = "done"]
-           /\ \/ (version' = version + 1 /\ lastWriter' = p)
-              \/ UNCHANGED <<version, lastWriter>>
-           /\ UNCHANGED lock
-Unlock(p) == /\ pc[p] = "done" /\ lock = p
-             /\ lock' = 0 /\ pc' = [pc EXCEPT ![p] = "idle"] /\ UNCHANGED <<version, lastWriter>>
+           /\ version' = IF wr[p] THEN version + 1 ELSE version
+           /\ UNCHANGED <<writer, readers, wr>>
+Unlock(p) == /\ pc[p] = "done"
+             /\ \/ (wr[p] /\ writer' = 0 /\ readers' = readers)
+                \/ (~wr[p] /\ readers' = readers \ {p} /\ writer' = writer)
+             /\ pc' = [pc EXCEPT ![p] = "idle"] /\ UNCHANGED <<wr, version>>
 
-Next == \E p \in Procs : Lock(p) \/ Body(p) \/ Unlock(p)
+Next == \E p \in Procs : LockW(p) \/ LockR(p) \/ Body(p) \/ Unlock(p)
 
-TypeOK == /\ lock \in Procs \cup {0}
-          /\ pc \in [Procs -> {"idle", "locked", "done"}]
-          /\ version \in Nat /\ lastWriter \in Procs \cup {0}
+TypeOK == /\ writer \in Procs \cup {0} /\ readers \in SUBSET Procs
+          /\ pc \in [Procs -> {"idle", "locked", "done"}] /\ wr \in [Procs -> BOOLEAN]
+          /\ version \in Nat
 
-MutualExclusion == \A p, q \in Procs : (pc[p] # "idle" /\ pc[q] # "idle") => p = q
+\* a writer in its critical section is alone there
+WriterExclusive == \A p, q \in Procs : (pc[p] # "idle" /\ wr[p] /\ pc[q] # "idle") => p = q
 
 IndInv == /\ TypeOK
-          /\ \A p \in Procs : (pc[p] # "idle") <=> (lock = p)
-          /\ MutualExclusion
+          /\ \A p \in Procs : (pc[p] # "idle" /\ wr[p]) <=> (writer = p)
+          /\ \A p \in Procs : (pc[p] # "idle" /\ ~wr[p]) <=> (p \in readers)
+          /\ (writer # 0 => readers = {})
+          /\ WriterExclusive
 
 IndInit == IndInv
 =============================================================================
